@@ -598,6 +598,28 @@ def runtime_facts(w, top):
     return out
 
 
+def _first_detached(top):
+    seen = set()
+
+    def rec(obj, path):
+        if id(obj) in seen:
+            return None
+        seen.add(id(obj))
+        for name, m in obj.members.items():
+            par = m._parent if m.is_alias else m.parent
+            if par is not obj:
+                return f"{path}.{name}: parent is {par!r}, expected its container {obj!r}"
+            if m.name != name:
+                return f"{path}.{name}: member is named {m.name!r}"
+            if not m.is_alias:
+                r = rec(m, f"{path}.{name}")
+                if r:
+                    return r
+        return None
+
+    return rec(top, top.name)
+
+
 def load_runtime_only(griffe, world):
     """The same world without any stubs: what the runtime side alone looks like."""
     files = render_world(world)
@@ -651,6 +673,12 @@ def execute(plan, ctx):
             mism = match(expected, tree)
             if mism:
                 ctx.fail("R-model", f"merged tree differs from the reference merge: {mism} (schedule {sched})", tags=tags)
+                return
+            # structural sanity of the merged tree: every member (runtime, merged or stub-only) hangs below its
+            # container, and the merged top-level module is the runtime one
+            bad = _first_detached(top)
+            if bad:
+                ctx.fail("S-structure", f"merged tree is inconsistent: {bad} (schedule {sched})", tags=tags)
                 return
             if base_facts is not None:
                 # differential: nothing the runtime side knows (kind, span, value, labels, decorators, bases,
